@@ -17,8 +17,9 @@ RULE = ("trees with 1-3 groups (sizes 2-4), hard-link sets, symlinks reported wi
         "groups changes; link/clone ops keep every path readable with the same bytes; move keeps the bytes under the "
         "target. Non-trivial = run that changed the tree; distinct by (tree, format, op, options).")
 ASSUMPTIONS = ["--match-links together with --symbolic-links is excluded, as the statement says",
-               "dedupe (reflink) runs against file systems without reflink support here: natively (the command must then "
-               "leave everything untouched) and with FICLONE emulated by the shim once built (see C05)",
+               "dedupe (reflink) runs against file systems without reflink support: with ioctl(FICLONE) emulated by the shim "
+               "(copy + truncate, so that the clone code path really replaces data) and, for one option set, natively "
+               "(the command must then leave everything untouched)",
                "directory mtimes are not compared (removing an entry legitimately changes them)"]
 
 CONTENT_LEN = 24
@@ -88,6 +89,7 @@ def hostile_tree(name):
 
 def prepare(tier):
     C.build_hooks()
+    C.build_shim()
 
 
 OPTSETS = []
@@ -113,6 +115,9 @@ def cases(tier, seed):
                         continue
                     out.append({"tree": tname, "roots": roots, "gargs": gargs, "entries": entries, "fmt": fmt, "op": op,
                                 "n": n, "prio": prio, "pat": pat})
+                    if op == "dedupe" and n is None and prio is None and pat is None:
+                        out.append({"tree": tname, "roots": roots, "gargs": gargs, "entries": entries, "fmt": fmt,
+                                    "op": op, "n": n, "prio": prio, "pat": pat, "native": True})
                     if op == "move" and (idx % 3 == 0 or (n is None and prio is None and pat is None)):
                         # the target directory already holds files at the paths the moved files would get
                         # (e.g. a second `move` into the same archive): they are outsiders with unique content
@@ -175,7 +180,12 @@ def evaluate(case):
                     content_before[p] = C.sha(C.read_file(C.b(p)))
                 except OSError:
                     pass
-        r = D.run_dedupe(sc, case["op"], dargs, report, target=target)
+        env_extra = None
+        if case["op"] == "dedupe" and not case.get("native"):
+            # no reflink file system here: let the shim emulate ioctl(FICLONE) so that the clone path really runs
+            env_extra = {"LD_PRELOAD": os.path.join(C.BUILD, "fcshim.so"), "FCSHIM_ROOT": sc.tree,
+                         "FCSHIM_CLASSES": "-", "FCSHIM_EMULATE_CLONE": "1"}
+        r = D.run_dedupe(sc, case["op"], dargs, report, target=target, env_extra=env_extra)
         after = C.inventory(sc.tree, target) if os.path.exists(target) else C.inventory(sc.tree)
         if r["timeout"] or "panicked" in r["err"]:
             viol.append(dict(feat, kind="crash", detail="%s %s: %s" % (case["op"], dargs, r["err"][-300:])))
@@ -250,7 +260,7 @@ def evaluate(case):
                         viol.append(dict(feat, kind="moved_file_missing", detail="%r not found with the same bytes at %r" % (p, tp)))
         changed = bool(C.inv_diff({k: v for k, v in before.items() if not k.startswith(target)},
                                   {k: v for k, v in after.items() if not k.startswith(target)}))
-    return {"violations": viol, "nontrivial": [case["tree"], case["fmt"], case["op"], case["n"], case["prio"], case["pat"]] if changed else None,
+    return {"violations": viol, "nontrivial": [case["tree"], case["fmt"], case["op"], case["n"], case["prio"], case["pat"], case.get("prepop"), case.get("native")] if changed else None,
             "outcome": "changed" if changed else "unchanged",
             "sample": {"tree": case["tree"], "op": case["op"], "dedupe_args": dargs, "group_args": case["gargs"], "fmt": case["fmt"]}}
 
